@@ -15,10 +15,12 @@ import enum
 import json
 import multiprocessing
 import os
+import subprocess
+import sys
 from pathlib import Path
 
 from harness import coq
-from harness.common import (REPO, drain_failures, ensure_repo_on_path, install_failure_tap, parse_json_violations, rng_for,
+from harness.common import (PY, REPO, VERIF, clean_env, drain_failures, ensure_repo_on_path, install_failure_tap, parse_json_violations, rng_for,
                             run_cli, scratch_dir)
 from harness.framework import Check
 
@@ -302,14 +304,38 @@ def gen_case(seed: int, i, via: str = "api") -> dict:
             text = _rs_file(r, j)
         if shebang:
             text = r.choice(["#!/usr/bin/env python3\n", "#!/usr/bin/python\n", "#! /usr/bin/env python3.12\n"]) + text
+        if files and not shebang and r.random() < 0.15:
+            # the same file name in another directory (index.ts, __init__.py ... are common): only the directory tells them apart
+            base = r.choice(files)[0].rsplit("/", 1)[-1]
+            if "." in base and base.rsplit(".", 1)[-1].lower() == ext.lower():
+                alt = r.choice([d_ for d_ in ("", "pkg/", "pkg/inner/", "lib/") if d_ + base not in {f_[0] for f_ in files}] or [None])
+                if alt is not None:
+                    name = alt + base
         files.append([name, text])
+    # several targets on one command line (any set of files and directories): some top-level files, a sub-directory,
+    # sometimes the whole project as well (overlapping targets are linted once per group, in both modes)
+    targets = None
+    if via == "cli" and r.random() < 0.45:
+        top = [rel for rel, _ in files if "/" not in rel]
+        targets = r.sample(top, min(len(top), r.choice([1, 2, 3])))
+        if any(rel.startswith("pkg/") for rel, _ in files):
+            targets.append("pkg/inner" if (r.random() < 0.3 and any(rel.startswith("pkg/inner/") for rel, _ in files)) else "pkg")
+        if r.random() < 0.35:
+            targets.append(".")
+        r.shuffle(targets)
+        targets = targets or None
     parent = r.choice(PARENTS)
     # under an exclusion-named parent an absolute spelling makes both runs skip everything: mostly use the relative spellings there
     rel_w = 4 if parent not in ("", "tests", "test") else 1
     spelling = r.choice(["abs", "abs"] + ["rel", "dot"] * rel_w if entry == "dir" else ["abs", "abs"] + ["rel"] * (2 * rel_w - 1))
     case = {"i": i, "via": via, "k": k, "files": files, "config": cfg, "config_via": config_via, "root_config": root_cfg,
-            "entry": entry, "recursive": r.random() < 0.7, "parent": parent, "spelling": spelling,
-            "sched_seed": None if (via == "cli" or r.random() < 0.15) else r.randrange(1 << 30), "bad_config": bad}
+            "entry": entry, "recursive": r.random() < 0.7, "parent": parent, "spelling": spelling, "targets": targets,
+            "sched_seed": None if (via == "cli" or r.random() < 0.15) else r.randrange(1 << 30), "bad_config": bad,
+            # worker-history stream: one real worker process serves a seeded sequence of up to 8 of these files
+            "serve_seed": r.randrange(1 << 30) if (via == "api" and len(files) >= 2 and r.random() < 0.3) else None,
+            # a .thailintignore at the project root (the ignore parser is a per-process singleton with a per-path cache)
+            "ignore_file": ([f"*_{r.randrange(max(1, len(files)))}*"] + (["pkg/inner/"] if r.random() < 0.4 else []))
+            if r.random() < 0.25 else None}
     if via == "cli":
         case["cmd"] = cmd
     return case
@@ -374,6 +400,9 @@ def _norm(case: dict) -> dict:
     c.setdefault("root_config", {"kind": ".thailint.yaml", "content": c.get("config", {})} if c.get("via") == "cli" else None)
     c.setdefault("sched_seed", None)
     c.setdefault("sched", None)
+    c.setdefault("serve_seed", None)
+    c.setdefault("ignore_file", None)
+    c.setdefault("targets", None)
     return c
 
 
@@ -406,6 +435,8 @@ def run_impl(case: dict) -> dict:
             if case["root_config"]:
                 name, text = root_config_file(case["root_config"])
                 (root / name).write_text(text)
+            if case["ignore_file"]:
+                (root / ".thailintignore").write_text("\n".join(case["ignore_file"]) + "\n")
             cfg_arg = None
             if case["config_via"] == "file":
                 text = "# thai-lint configuration: built-in defaults\n" if case["config"] == {} else json.dumps(case["config"], indent=1) + "\n"
@@ -417,13 +448,16 @@ def run_impl(case: dict) -> dict:
             else:
                 cwd, target = (root, None) if sp == "rel" else (d, None)
             os.chdir(cwd)
+            targets = [target]
+            if case["via"] == "cli" and case["targets"]:
+                targets = [(target if t == "." else target / t) for t in case["targets"]]
             if case["config_via"] == "file":
                 cfg_arg = str(root / "alt_config.yaml") if sp == "abs" else str((target or Path(".")) / "alt_config.yaml")
             # ---- how the orchestrator gets its configuration
             if case["via"] == "cli":
                 try:
                     from src.cli.utils import setup_base_orchestrator
-                    o0 = setup_base_orchestrator([target], cfg_arg, False, Path(cfg_arg).resolve().parent if cfg_arg else None)
+                    o0 = setup_base_orchestrator(list(targets), cfg_arg, False, Path(cfg_arg).resolve().parent if cfg_arg else None)
                     proot, cfg = o0.project_root, o0.config
                 except BaseException as e:  # noqa: BLE001  (sys.exit included)
                     res["notes"].append(f"setup_base_orchestrator unavailable ({type(e).__name__}); using Orchestrator(project_root=target)")
@@ -445,7 +479,19 @@ def run_impl(case: dict) -> dict:
                     return o._finalize_rules()
                 return o.lint_files([])
 
-            if entry == "dir":
+            group_paths = None
+            if len(targets) > 1 or (case["via"] == "cli" and case["targets"]):
+                # execute_linting_on_paths: the file targets form one group, every directory target another
+                fgroup = [t for t in targets if t.is_file()]
+                group_paths = ([fgroup] if fgroup else []) + [list(core._collect_files_fast(t, case["recursive"])) for t in targets if t.is_dir()]
+                paths, index = [], {}
+                for g in group_paths:
+                    for p in g:
+                        if str(p) not in index:
+                            index[str(p)] = len(paths)
+                            paths.append(p)
+                res["groups"] = [[index[str(p)] for p in g] for g in group_paths]
+            elif entry == "dir":
                 paths = list(core._collect_files_fast(target, case["recursive"]))
             else:
                 paths = [(root / rel) if sp == "abs" else Path(rel) for rel, _ in case["files"]]
@@ -488,12 +534,48 @@ def run_impl(case: dict) -> dict:
                     return finalize(o)
                 res["rep_seen"], _ = _try(part)
                 res["rep_seen"] = res["rep_seen"] or []
+            res["group_reports"] = []
+            if group_paths is not None:
+                def report_over(idx):
+                    def run_():
+                        o = fresh()
+                        for j in idx:
+                            o.lint_file(paths[j])
+                        return finalize(o)
+                    vs, _ = _try(run_)
+                    return vs or []
+                for g in res["groups"]:
+                    res["group_reports"].append([g, report_over(g)])
+                    gs = [j for j in g if res["seen"][j]]
+                    if gs != g and gs:
+                        res["group_reports"].append([gs, report_over(gs)])
             res["failures"] = drain_failures()
+            res["served"] = []
+            if case["serve_seed"] is not None and len(paths) >= 2 and hasattr(core, "_lint_file_worker"):
+                rs = random.Random(case["serve_seed"])
+                order = rs.sample(range(len(paths)), min(8, len(paths)))     # each file at most once, as in the pool
+                eff_cfg = fresh().config
+                try:
+                    json.dumps(eff_cfg)
+                except TypeError:
+                    order = []
+                    res["notes"].append("effective configuration is not JSON-serialisable: worker-history stream skipped")
+                for tasks in ([order, order[-1:]] if order else []):     # a pooled worker; a brand-new process serving one file
+                    spec = d / "serve.json"
+                    spec.write_text(json.dumps({"root": str(root), "proot": str(proot), "cfg": eff_cfg, "paths": [str(paths[t]) for t in tasks]}))
+                    env = clean_env(d)
+                    env["PYTHONPATH"] = f"{REPO}:{VERIF}"
+                    pr = subprocess.run([PY, "-m", "harness.props.c07", "--serve", str(spec)], cwd=str(cwd), env=env, capture_output=True, timeout=300)
+                    try:
+                        outs_ = json.loads(pr.stdout.decode("utf-8", "replace").strip().splitlines()[-1])
+                        res["served"] += [[t, o] for t, o in zip(tasks, outs_)]
+                    except (ValueError, IndexError):
+                        res["notes"].append("worker-history subprocess failed: " + pr.stderr.decode("utf-8", "replace")[-200:])
             if case["via"] == "cli":
                 outs = []
                 opts = (["--config", cfg_arg] if cfg_arg else []) + ([] if case["recursive"] else ["--no-recursive"])
                 for extra in ([], ["--parallel"]):
-                    rc, so, se = run_cli([case["cmd"], *opts, *extra, "--format", "json", str(target)], cwd=cwd, home=d)
+                    rc, so, se = run_cli([case["cmd"], *opts, *extra, "--format", "json", *[str(t) for t in targets]], cwd=cwd, home=d)
                     vs = parse_json_violations(so)
                     outs.append({"rc": rc, "vs": None if vs is None else [enc_json_violation(v) for v in vs], "stderr": se[-300:] if vs is None else ""})
                 res["seq"], res["seq_exit"] = outs[0]["vs"], outs[0]["rc"]
@@ -589,11 +671,14 @@ def coq_case(case: dict, impl: dict) -> str:
     seen = coq.coq_list([coq.coq_bool(b) for b in impl["seen"]])
     seq = "None" if impl["seq"] is None else f"Some {_nats(it.ids(impl['seq']))}"
     par = "None" if impl["par"] is None else f"Some {_nats(it.ids(impl['par']))}"
+    groups = coq.coq_list([_nats(g) for g in impl.get("groups", [])])
+    greps = coq.coq_list([f"({_nats(k)}, {_nats(it.ids(v))})" for k, v in impl.get("group_reports", [])])
+    served = coq.coq_list([f"({t}, " + ("None" if o is None else f"Some {_nats(it.ids(o))}") + ")" for t, o in impl.get("served", [])])
     vtab = coq.coq_list([_coq_violation(v) for v in it.items])
     cmd = coq.coq_option(case.get("cmd"), coq.coq_string)
     return ("judge orchpar_actual {| c_vtab := " + vtab + ";\n c_perfile := " + perfile + "; c_rep_nil := " + rep_nil +
-            "; c_rep_full := " + rep_full + "; c_seen := " + seen + "; c_rep_seen := " + rep_seen + f"; c_mw := {coq.coq_option(case['k'])}; c_cpu := {impl['cpu']}; c_sched := {_nats(impl['sched'])}; "
-            f"c_ordered := {coq.coq_bool(impl['ordered'])}; c_cmd := {cmd}; c_seq := {seq}; c_par := {par}; "
+            "; c_rep_full := " + rep_full + "; c_seen := " + seen + "; c_rep_seen := " + rep_seen + "; c_groups := " + groups + "; c_group_reports := " + greps + f"; c_mw := {coq.coq_option(case['k'])}; c_cpu := {impl['cpu']}; c_sched := {_nats(impl['sched'])}; "
+            f"c_ordered := {coq.coq_bool(impl['ordered'])}; c_cmd := {cmd}; c_served := {served}; c_seq := {seq}; c_par := {par}; "
             f"c_seq_exit := {impl['seq_exit']}; c_par_exit := {impl['par_exit']} |}}")
 
 
@@ -694,7 +779,7 @@ def _summary(case, impl):
     nc = _norm(case)
     return {"via": case["via"], "cmd": case.get("cmd"), "max_workers": case["k"], "n_files": len(impl["files"]), "config": case["config"],
             "config_via": nc["config_via"], "root_config": nc["root_config"], "entry": nc["entry"], "recursive": nc["recursive"],
-            "spelling": nc["spelling"], "parent_dir": nc["parent"],
+            "spelling": nc["spelling"], "parent_dir": nc["parent"], "targets": nc["targets"], "group_sizes": [len(g) for g in impl.get("groups", [])],
             "completion_order": impl["sched"] if impl["ordered"] else "uncontrolled",
             "sequential": "raises" if impl["seq"] is None else f"{len(impl['seq'])} violations",
             "parallel": "raises" if impl["par"] is None else f"{len(impl['par'])} violations",
@@ -727,7 +812,7 @@ def run(tier: str, seed: int, replay: str | None = None) -> int:
     scale = chk.budget_scale()
     phases = {"build_s": round(time.time() - t0, 1)}
     n_api = (44 if tier == "quick" else 460) * scale
-    n_cli = (4 if tier == "quick" else 40) * scale
+    n_cli = (6 if tier == "quick" else 50) * scale
     if replay:
         cases = [json.loads(Path(replay).read_text())["violation"]["case"]]
     else:
@@ -747,7 +832,7 @@ def run(tier: str, seed: int, replay: str | None = None) -> int:
     for case, impl, ver in zip(cases, impls, verdicts):
         n = len(impl["files"])
         eff = case["k"] or min(8, impl["cpu"])
-        above = n >= 2 * eff
+        above = any(len(g) >= 2 * eff for g in impl["groups"]) if impl.get("groups") else n >= 2 * eff
         chk.count([case["files"], case["config"], case["k"], case.get("sched"), case.get("sched_seed"), case["via"], case.get("cmd"),
                    case.get("entry"), case.get("spelling"), case.get("parent"), case.get("config_via"), case.get("root_config"), case.get("recursive")], above and n > 0)
         nc = _norm(case)
@@ -761,6 +846,7 @@ def run(tier: str, seed: int, replay: str | None = None) -> int:
         chk.dist(f"max_workers:{case['k']}")
         chk.dist("files_vs_threshold:" + ("at" if n == 2 * eff else "above" if above else "below"))
         chk.dist("order:" + ("controlled" if impl["ordered"] else "uncontrolled"))
+        chk.dist("targets:" + (f"{len(impl['groups'])} groups" if impl.get("groups") else "one"))
         chk.dist("crossfile_report:" + ("nonempty" if impl["rep_full"] else "empty"))
         if any(not Path(rel).suffix and text.startswith("#!") and "python" in text.split("\n")[0] for rel, text in case["files"]):
             chk.dist("has_python_shebang_script:" + ("in_crossfile_report" if any(
@@ -791,10 +877,19 @@ def run(tier: str, seed: int, replay: str | None = None) -> int:
         nc_ = 2 + len(FLAGS)
         cand = [bool(b) for b in ver[4:4 + nc_]]
         err_explained = bool(ver[4 + nc_]) if len(ver) > 4 + nc_ else False
+        served_ok = bool(ver[5 + nc_]) if len(ver) > 5 + nc_ else True
         info = {"case": case, "observed": _summary(case, impl), "candidates_matching_impl": [nm for nm, ok in zip(names, cand) if ok]}
         if not dom:
             chk.violation({"reason": "a measured violation is not a well-formed Violation record (field list differs from src/core/types.py) "
                                      "or the recorded completion order is not a permutation of the tasks", **info})
+            continue
+        if impl.get("served"):
+            chk.traces_validated += len(impl["served"])
+            chk.dist("worker_history_tasks", len(impl["served"]))
+        if not served_ok:
+            chk.violation({"reason": "a worker process that had served other files returned for a file something else than the model's worker "
+                                     "computes from the fresh-Orchestrator result (lint_file depends on process state, or to_dict differs from the "
+                                     "generated table): worker assignment would matter", "served": impl["served"][:4], **{k: v for k, v in info.items()}})
             continue
         if not seq_ok:
             chk.correspondence_broken({"level": "observable", "detail": "lint_files differs from concat(per-file results in fresh processes) ++ finalize report", **info})
@@ -828,3 +923,33 @@ def run(tier: str, seed: int, replay: str | None = None) -> int:
             chk.correspondence_broken({"level": "observable", "detail": "Model/OrchPar.v under Actual/OrchParActual.v disagrees with the implementation "
                                                                            "and no candidate quirk vector matches all cases"})
     return chk.finish()
+
+
+def _serve_main(spec_path: str) -> int:
+    """worker-history stream, run in a process of its own: serve the tasks one after the other with the real _lint_file_worker"""
+    global _ROOT
+    spec = json.loads(Path(spec_path).read_text())
+    ensure_repo_on_path()
+    try:
+        from loguru import logger as _lg
+        _lg.remove()
+    except Exception:  # noqa: BLE001
+        pass
+    import logging
+    logging.disable(logging.CRITICAL)
+    import src.orchestrator.core as core
+    _ROOT = spec["root"]
+    out = []
+    for p in spec["paths"]:
+        try:
+            ds = core._lint_file_worker((Path(p), Path(spec["proot"]), copy.deepcopy(spec["cfg"])))
+            out.append([[[k, _enc(v)] for k, v in d.items()] for d in ds])
+        except Exception:  # noqa: BLE001 - "the task raises" is an outcome
+            out.append(None)
+    print(json.dumps(out))
+    return 0
+
+
+if __name__ == "__main__":
+    if len(sys.argv) == 3 and sys.argv[1] == "--serve":
+        sys.exit(_serve_main(sys.argv[2]))
